@@ -157,6 +157,8 @@ def units(tier):
     for m in extract.MODELS:
         for a in ([(2, 'ranks', False, False), (3, 'scores', False, False), (2, 'none', True, False)] if tier == "quick" else [(2, 'ranks', False, True), (2, 'scores', True, False), (3, 'none', False, False), (3, 'ranks', False, True), (3, 'scores', False, False), (2, 'none', True, True), (4, 'ranks', False, False)]):
             us.append(("unit_anysize_rate", (m,) + a))
+    if tier == "quick":
+        us += [("unit", (m, (1,) * 5, "ranks", False)) for m in extract.MODELS] + [("unit", (m, (1,) * 6, "none", False)) for m in extract.MODELS]
     return us
 
 
